@@ -16,6 +16,8 @@ use crate::report::{CheckOutput, Ctx, Tally};
 use crate::run::{run_reader, run_slice, ChunkReader, F};
 use crate::util::{fnv, hex, show, unhex};
 
+const WARMUP_INPUT: &[u8] = b"a: [1, 2]\n---\nb\n";
+
 pub fn asan_exe() -> PathBuf {
 	PathBuf::from("/verif/.build/asan-target/x86_64-unknown-linux-gnu/release/xtmc")
 }
@@ -240,7 +242,8 @@ pub fn worker(tier: &str, _part: usize, nparts: usize, start: usize, progress: &
 	let d = if thorough { 2 } else { 1 };
 	// warm-up so that one-time lazy allocations are out of the way
 	let mut warm = Tally::default();
-	exercise(b"a: [1, 2]\n---\nb\n", 1, &mut warm);
+	prog.set(crate::isolate::WARMUP);
+	exercise(WARMUP_INPUT, 1, &mut warm);
 	let mut i = start;
 	while i < inputs.len() {
 		prog.set(i as u64);
@@ -303,7 +306,7 @@ pub fn run(ctx: &Ctx) -> CheckOutput {
 	assert!(exe.exists(), "MACHINERY: the AddressSanitizer build of the harness is missing ({}); run /verif/check setup", exe.display());
 	let env = vec![("ASAN_OPTIONS".to_string(), "detect_leaks=0:abort_on_error=1:allocator_may_return_null=1:detect_stack_use_after_return=0".to_string())];
 	let merged = crate::isolate::run_isolated(&exe, &env, "C17", &ctx.tier, crate::util::threads(), all.len(), std::time::Duration::from_secs(120), &|idx| {
-		let input = &all[idx];
+		let input: &[u8] = if idx == usize::MAX { WARMUP_INPUT } else { &all[idx] };
 		(json!({"kind": "memory", "input_hex": if input.len() <= 4096 { hex(input) } else { String::new() }, "input_len": input.len(), "input_text": show(&input[..input.len().min(120)])}),
 			format!("YAML input #{idx} ({} bytes) {}", input.len(), show(&input[..input.len().min(120)])))
 	});
